@@ -87,6 +87,8 @@ def laguerStep (a : Array (Cx K)) (m : Nat) (iter : Nat) (x : Cx K) : Option (Cx
     let gm := g - sq
     let abp := Cx.abs gp
     let abm := Cx.abs gm
+    -- |p'/p| so large that its square overflowed (a root lies within m |p/p'| of x): stop with the current estimate
+    if !(isFinite abp && isFinite abm) then none else
     let gp := if ScalarExt.lt abp abm then gm else gp
     let dx := if ScalarExt.lt 0 (fmax abp abm) then divT ⟨ofNat m, 0⟩ gp
               else polar (1 + abx) (ofNat iter)
